@@ -69,7 +69,7 @@ func init() {
 	for _, id := range []string{"C07", "C09", "C10"} {
 		reg(&propInfo{id: id, engine: "inproc", pkg: "snaps", level: "model_checking", envMatrix: updMatrix, shardsQ: 2, shardsT: 4})
 	}
-	reg(&propInfo{id: "C05", engine: "inproc", pkg: "snaps", level: "model_checking", needsE3: false, envMatrix: updMatrix, shardsQ: 4, shardsT: 4})
+	reg(&propInfo{id: "C05", engine: "inproc", pkg: "snaps", level: "model_checking", needsE3: true, envMatrix: updMatrix, shardsQ: 4, shardsT: 4})
 	reg(&propInfo{id: "C06", engine: "inproc", pkg: "snaps", level: "model_checking", racePass: true, shardsQ: 16})
 	reg(&propInfo{id: "C12", engine: "inproc", pkg: "snaps", level: "model_checking", racePass: true})
 	reg(&propInfo{id: "C20", engine: "inproc", pkg: "snaps", level: "model_checking", racePass: true, envMatrix: updMatrix, shardsQ: 2, shardsT: 4})
